@@ -575,6 +575,12 @@ func (w *world) newRun(idx int, cal calib, energy *string) *clientRun {
 		Servers:       []refenc.MapEntry{w.rogue.Entry(w.sink.Port, false)},
 		HistoryOrigin: 0, CTSettings: cal.text, Energy: energy, LastSync: drv.FreshSyncStamp(),
 	}
+	if idx%3 == 1 {
+		// a device whose history begins some time after genesis: what the reader makes of a row does not
+		// depend on what the history can store (rows before the history origin are records like any other)
+		cr.env.HistoryOrigin = uint32(1 + w.rng.Intn(3000))
+		w.r.Count("clients.history_origin_after_genesis", 1)
+	}
 	w.byID[id] = cr
 	return cr
 }
